@@ -1,0 +1,60 @@
+/*
+ * Atree - Scalable Arrays and Ordered Maps
+ *
+ * Copyright Flow Foundation
+ *
+ * Licensed under the Apache License, Version 2.0 (the "License");
+ * you may not use this file except in compliance with the License.
+ * You may obtain a copy of the License at
+ *
+ *   http://www.apache.org/licenses/LICENSE-2.0
+ *
+ * Unless required by applicable law or agreed to in writing, software
+ * distributed under the License is distributed on an "AS IS" BASIS,
+ * WITHOUT WARRANTIES OR CONDITIONS OF ANY KIND, either express or implied.
+ * See the License for the specific language governing permissions and
+ * limitations under the License.
+ */
+
+//go:build verif
+
+// Contracts for the deductive verifier in /verif (comment-only; adds no code).
+// Syntax: see /verif/DESIGN.md, appendix B.
+
+package atree
+
+//@ # ---------------------------------------------------------------- settings.go
+
+//@ pred thresholds() = 256 <= targetThreshold && targetThreshold <= 32768 &&
+//@      minThreshold == targetThreshold / 2 &&
+//@      maxThreshold == targetThreshold + targetThreshold / 2 &&
+//@      maxInlineArrayElementSize == (targetThreshold - 21) / 2 &&
+//@      maxInlineMapElementSize == (targetThreshold - 26) / 2 - 8 &&
+//@      maxInlineMapKeySize == (maxInlineMapElementSize - 1) / 2
+
+//@ axiom thresholds() because "package invariant: established by setThreshold (proved below, called from init), and the six globals are assigned nowhere else (assignment census, checked on every run)"
+
+//@ func setThreshold(threshold) (r1, r2, r3, r4)  serves C05
+//@   requires 256 <= threshold && threshold <= 32768
+//@   ensures  thresholds() && targetThreshold == threshold
+//@   ensures  r1 == minThreshold && r2 == maxThreshold && r3 == maxInlineArrayElementSize && r4 == maxInlineMapKeySize
+//@   modifies global.targetThreshold, global.minThreshold, global.maxThreshold, global.maxInlineArrayElementSize, global.maxInlineMapElementSize, global.maxInlineMapKeySize
+
+//@ func maxInlineMapValueSize(keySize) (r)  serves C05
+//@   requires keySize <= maxInlineMapKeySize
+//@   ensures  r == maxInlineMapElementSize - keySize - 1 && r >= maxInlineMapKeySize
+//@   pure
+
+//@ # ---------------------------------------------------------------- math_utils.go
+
+//@ func safeAdd2Uint32(a, b) (sum, ok)  serves C19
+//@   ensures ok == (a + b <= 4294967295)
+//@   ensures ok ==> sum == a + b
+//@   ensures !ok ==> sum == 0
+//@   pure
+
+//@ func safeAdd3Uint32(a, b, c) (sum, ok)  serves C19
+//@   ensures ok == (a + b + c <= 4294967295)
+//@   ensures ok ==> sum == a + b + c
+//@   ensures !ok ==> sum == 0
+//@   pure
